@@ -10,7 +10,7 @@ def ruleout(rule):
 inp=[]; exp=[]
 rnd=random.Random(int(sys.argv[2]))
 for t in range(int(sys.argv[1])):
-    n=rnd.randint(2,9); TC.U=gen_universe(rnd,n); pack=gen_pack(rnd); ev=rnd.random()<0.3
+    n=rnd.randint(2,9); TC.U=gen_universe(rnd,n); IT=rnd.random()<0.5; pack=gen_pack(rnd, iterative=IT); ev=rnd.random()<0.3
     strats=[]; idx={}
     def sid(s):
         k=repr(s)
@@ -32,7 +32,7 @@ for t in range(int(sys.argv[1])):
             if outs: inp.append(f"A {k} {x} "+";".join(outs))
     j=lambda l: ",".join(map(str,l)) if l else "-"
     inp.append(f"P {j(P['init'])} {j(P['inf'])} {';'.join(j(e) for e in P['exp']) if P['exp'] else '-'} {j(P['ver'])} {j(P['sym'])} {int(ev)}")
-    K=rnd.choice([1,2,3,5,1000]); inp.append(f"R 0 {K}")
+    K=rnd.choice([1,2,3,5,1000]); inp.append(f"R 0 {K} {int(IT)}")
     log=[]
     class LDB(RuleDB):
         def add(self,start,ends,rule):
